@@ -30,7 +30,7 @@ CHECKS = {
               "paths and URL strings (no bound) about the Gallina model of RoutePath::match_path and of the derived "
               "match_route; the model is compared with the real code on every pattern of length <=3 (quick) / <=4 "
               "(thorough) over {a,b,<p>,<p..>} x every path over {a,b,c} of the same length, decorated and random "
-              "longer paths, and 10 derived enums x random URLs; a python oracle written from the property text "
+              "longer paths, and 10 derived enums (the #[not_found] variant first, in the middle or last) x random URLs; a python oracle written from the property text "
               "judges the implementation's own output."),
         note=TB + "python mirror of parse_route; nested-Route capture fields and the browser integration (router.rs) are not modelled.",
         design="5.C17"),
@@ -42,7 +42,7 @@ CHECKS["C18"] = dict(
           "depth or width) over the full syn Expr/Pat/Stmt constructor set: any tree containing, outside closures, a call, method call, "
           "non-view macro, await, try or assignment is classified dynamic. is_dyn is `classify dyn_rule` where dyn_rule is regenerated "
           "from is_dyn/is_dyn_pattern/is_dyn_block/is_dyn_macro in codegen.rs by tools/c18_translate.py on every run, so the theorem is "
-          "re-proved against what the code says now; additionally ~8k (quick) / ~70k (thorough) generated Rust expressions go through the real "
+          "re-proved against what the code says now; additionally ~15k (quick) / ~70k (thorough) generated Rust expressions (calls, method calls incl. conversion-looking ones such as x.to_string() / x.clone(), macros, await, try, assignments inside every expression and pattern form) go through the real "
           "syn parser, the real view parser and Codegen in child and four attribute positions, and are compared with the model and judged "
           "by a python oracle restating the property."),
     note=TB + "the translator tools/c18_translate.py; the syn->tree conversion in harness/macro-driver; const blocks and nested items are treated as opaque like closures; compound assignment counts as a binary operator.",
@@ -114,7 +114,7 @@ CHECKS["C08"] = dict(
           "only on the tree with every string erased, so text and attribute values cannot introduce elements, attributes or comments (C08_injection_safe, _2); void elements get no end tag; false boolean, "
           "false dynamic boolean and None attributes leave the output unchanged. Hypothesis wf_view: tag and attribute names are names (sycamore takes them from static identifiers and never escapes them; "
           "counterexamples show each clause is needed) -- the check evaluates wf_view on every generated view. Every run compares the model's bytes with render_to_string's bytes on ~2400 (quick) / ~35000 (thorough) "
-          "views incl. every string of length <= 2/3 over a metacharacter alphabet in each kind of slot, and applies the Gallina tokenizer to the REAL output: it must tokenize back to the view that was built."),
+          "views incl. every string of length <= 2/3 over a metacharacter alphabet in each kind of slot (as owned strings and, in one family, as one string literal used as text and as attribute values of the same view), and applies the Gallina tokenizer to the REAL output: it must tokenize back to the view that was built."),
     note=SSRNOTE, design="5.C08")
 CHECKS["C12"] = dict(
     technique="Coq proofs on the SSR build model (key discipline) and on the runtime model (reinit) + byte-exact differential correspondence over render sequences + oracle",
